@@ -138,6 +138,18 @@ func init() {
 	Profiles["faults"] = p
 
 	p = general
+	p.Name = "enum" // C20 fault enumeration: fault-free base histories, every decision branch, short
+	p.Scans = 10
+	p.PFault, p.PCrash, p.PStale, p.PRestart = 0, 0, 0, 0
+	p.PFleet = 0.3
+	p.ShortGrace = true
+	p.PBoundary = 0.7
+	p.PExternal = 0.05
+	p.Setup = "force-then-up"
+	p.Ops = with(baseOps(), "load-up", 6, "load-low", 6, "ext-taint-time", 5, "force-taint", 3, "complete", 4, "cordon", 1)
+	Profiles["enum"] = p
+
+	p = general
 	p.Name = "external" // C19: nodes that are not members of the cloud group
 	p.PExternal = 1
 	p.ShortGrace = true
